@@ -248,6 +248,30 @@ fn case_internal(t: &mut Tape, st: &mut Stats) -> Verdict {
             return fail(&format!("C13/internal/{}/trace-diverged", kind_class), detail("halting invocation did not happen", json!(null)));
         }
     }
+    // the boundary before the first instruction: a flag that is already up when the run reaches its first boundary
+    // (raised while the text was still being read and parsed) - nothing may start
+    if t.chance(1, 3) {
+        st.class("flag-raised-before-the-first-instruction");
+        prep(&p);
+        let flag = Arc::new(AtomicBool::new(true));
+        let out = run_text(&p.text, context_for(&p), REF_FUEL * 2, Some(flag.clone()));
+        let got = events();
+        let d = json!({"script": p.text, "mismatch": "the flag was already up when the run began", "harness_commands_that_ran": got.len(), "result_ok": out.result.is_ok()});
+        if out.fuel_exhausted {
+            return fail("C13/internal/before-first-instruction/halt-ignored", d);
+        }
+        match out.result {
+            Err(_) => return fail("C13/internal/before-first-instruction/run-failed", d),
+            Ok(c) => {
+                if !got.is_empty() {
+                    return fail("C13/internal/before-first-instruction/instruction-started-after-halt", d);
+                }
+                if !c.variables.is_empty() {
+                    return fail("C13/internal/before-first-instruction/variables-changed-after-halt", d);
+                }
+            }
+        }
+    }
     if st.want_sample() && nontrivial {
         let tx = p.text.clone();
         st.sample(|| json!({"script": tx, "reference_invocations": n}));
@@ -347,7 +371,7 @@ pub fn property() -> Property {
     let _ = HashMap::<u8, u8>::new();
     Property {
         id: "C13",
-        rule: "(internal) programs over the scripted result-dictating command (goto loops, errors, on_error paths), structured while/for-in programs, scripted programs some of whose instructions run another script to its end through the runner on the same halt flag (what an include-style embedder command does; the flag may be raised inside such a nested run, which must stop the outer run too), and non-terminating wrappers (while true / while tick forever / label+goto) in which the k-th harness invocation raises the halt flag through the env it receives - k ranges over EVERY invocation of the un-halted reference run for runs of <= 12 invocations, 8 sampled otherwise - with the embedder either keeping a clone of the flag or not: the run must return Ok, its trace must equal the reference trace cut after invocation k, no further harness command may run, and the returned variables must equal the snapshot the halting command took (its own output variable aside). (thread) the same programs with a helper thread released by invocation j that sets the flag after a random spin: Ok, a prefix of the reference trace of length >= j, and at most one invocation after the counter value the helper observed. Non-trivial: the halt lands on a jumping, failing, error-handling or loop-condition instruction; distinct by (script, configuration)",
+        rule: "(internal) programs over the scripted result-dictating command (goto loops, errors, on_error paths), structured while/for-in programs, scripted programs some of whose instructions run another script to its end through the runner on the same halt flag (what an include-style embedder command does; the flag may be raised inside such a nested run, which must stop the outer run too), and non-terminating wrappers (while true / while tick forever / label+goto) in which the k-th harness invocation raises the halt flag through the env it receives - k ranges over EVERY invocation of the un-halted reference run for runs of <= 12 invocations, 8 sampled otherwise - with the embedder either keeping a clone of the flag or not (and, one case in three, a run whose flag is already up when it reaches the boundary before its first instruction: nothing may start): the run must return Ok, its trace must equal the reference trace cut after invocation k, no further harness command may run, and the returned variables must equal the snapshot the halting command took (its own output variable aside). (thread) the same programs with a helper thread released by invocation j that sets the flag after a random spin: Ok, a prefix of the reference trace of length >= j, and at most one invocation after the counter value the helper observed. Non-trivial: the halt lands on a jumping, failing, error-handling or loop-condition instruction; distinct by (script, configuration)",
         assumptions: &[
             "reference = the same program run without a halt (cut at 6000 instruction executions when it does not terminate); every top-level instruction of the generated programs invokes at most one harness command",
             "the second-thread schedule is sampled, not owned: a case whose run ends before the helper is released is discarded",
@@ -360,7 +384,7 @@ pub fn property() -> Property {
                     Tier::Thorough => Plan::Random { cases: 600_000, max_len: 800 },
                 },
                 case: case_internal,
-                min_classes: &[("halt-during-jumping-command", 1000), ("halt-during-failing-command", 500), ("halt-during-loop-condition-or-assignment", 1000), ("non-terminating-program", 1000), ("flag-only-reachable-through-env", 5000), ("halt-raised-inside-nested-run", 1000)],
+                min_classes: &[("halt-during-jumping-command", 1000), ("halt-during-failing-command", 500), ("halt-during-loop-condition-or-assignment", 1000), ("non-terminating-program", 1000), ("flag-only-reachable-through-env", 5000), ("halt-raised-inside-nested-run", 1000), ("flag-raised-before-the-first-instruction", 3000)],
             },
             Section {
                 name: "thread",
